@@ -563,7 +563,7 @@ def run_batches(ctx, binary, batches, tag):
 DEV_RE = re.compile(r'<<\s*"DEV",\s*(\d+),\s*\{([^}]*)\}\s*>>')
 
 
-def validate(ctx, events, cfg, tag, max_rounds=5):
+def validate(ctx, events, cfg, tag, max_rounds=5, module="AdminTrace", deque=False):
     """TLC validates one trace (config + histories) against AdminP; returns (accepted histories, rejected, DEV lines).
     A rejected history is taken out and the rest validated again (vlib.validate_history_trace, plus the DEV lines)."""
     import shutil
@@ -579,7 +579,7 @@ def validate(ctx, events, cfg, tag, max_rounds=5):
         flat = [config] + [e for h in hs for e in h]
         p = os.path.join(wd, "trace.ndjson")
         write_ndjson(p, flat)
-        ok, hwm, r = ctx.tlc_trace(wd, "AdminTrace", p, cfg=cfg, timeout=600)
+        ok, hwm, r = ctx.tlc_trace(wd, module, p, cfg=cfg, timeout=900, deque=deque)
         if ok and not r.violated:
             for m in DEV_RE.finditer(r.out):
                 for name in re.findall(r'"([^"]+)"', m.group(2)):
@@ -587,9 +587,10 @@ def validate(ctx, events, cfg, tag, max_rounds=5):
             return len(hs), rejected, devs
         if hwm < 1:
             raise Broken("trace validation made no progress (%s): %s\n%s" % (tag, r, r.out[-2500:]))
-        if r.error and not r.violated:
+        if r.error and not r.violated and "TRACE-HWM" not in r.out:
             raise Broken("trace validation failed to evaluate line %d (%s): %s\n%s" % (hwm + 1, tag, json.dumps(flat[min(hwm, len(flat) - 1)])[:600], r.out[-2500:]))
-        idx = hwm - 2            # the state after consuming line hwm violates the invariant
+        # AdminTrace: the state after consuming line hwm violates an invariant; AdminITrace: line hwm + 1 is the first the model cannot explain
+        idx = (hwm - 2) if r.violated else (hwm - 1)
         k = 0
         for hi, h in enumerate(hs):
             if idx < k + len(h):
@@ -692,6 +693,27 @@ def judge(ctx, binary, traces, batches, tag, stats):
             used = {p: {t: contents[p][t] for t in contents[p]} for p in contents
                     if any(p in json.dumps(o) for o in hist["ops"]) or p in ("discover", "remedy", "policies.yaml")}
             ctx.violation(found[0], {"mode": mode, "history": clean(hist), "contents": used, "trace": found[1], "clause": found[0]["class"]})
+
+
+def drift_check(ctx, traces, batches, stats):
+    """binds AdminI to the code: every recorded history (of the tagged universe) must be a behaviour of the model.
+    A history the model cannot follow is model drift (DESIGN 2.5), never a violation."""
+    def one(it):
+        i, ev = it
+        mode, hists, contents = batches[i]
+        if any(h.get("src") == "opaque" for h in hists):
+            return 0, []
+        acc, rej, _ = validate(ctx, ev, "AdminITrace_%s.cfg" % mode, "I%d" % i, max_rounds=4, module="AdminITrace", deque=True)
+        return acc, [(hists[r["hist"][0]["hist"] - 1], r) for r in rej]
+    for acc, rej in parallel(one, list(enumerate(traces)), n=4):
+        stats["accepted"] += acc
+        for h, r in rej:
+            stats["rejected"] += 1
+            if len(stats["examples"]) < 3:
+                at = min(r["at"], len(r["hist"]) - 1)
+                stats["examples"].append({"source": h.get("src"), "mode": h["mode"], "index": r["at"],
+                                          "unexplained_event": {k: v for k, v in r["hist"][at].items()},
+                                          "before": [{k: v for k, v in e.items() if k not in ("obs", "arg", "ans")} for e in r["hist"][max(0, at - 4): at]]})
 
 
 def clause_of(r):
@@ -798,6 +820,17 @@ def run(ctx):
     ctx.sample({"kind": "recorded-history", "events": [{k: v for k, v in e.items() if k != "arg"} for e in traces[0][1:8]]})
     stats = {"events": 0, "by_source": {}, "seen": set(), "answers": {}, "devs": {}, "dev_examples": {}}
     judge(ctx, binary, traces, batches, "p", stats)
+    dstats = {"accepted": 0, "rejected": 0, "examples": []}
+    drift_check(ctx, traces, batches, dstats)
+    ctx.notes.append("implementation-shaped model vs code: %d recorded histories are behaviours of AdminI, %d not explained" %
+                     (dstats["accepted"], dstats["rejected"]))
+    if dstats["rejected"]:
+        ctx.cov["model_drift"] = True
+        ctx.notes.append("MODEL-DRIFT examples: %s" % json.dumps(dstats["examples"])[:3000])
+        ctx.log("MODEL-DRIFT: %d histories not explained by AdminI, e.g. %s" % (dstats["rejected"], json.dumps(dstats["examples"][:1])[:1500]))
+        if not ctx.violations:
+            ctx.cov["states"] = 0          # the exhaustive result no longer speaks about this code
+            ctx.cov["transitions"] = 0
     ctx.cov["histories_by_source"] = stats["by_source"]
     ctx.cov["events_validated"] = stats["events"]
     ctx.cov["answers_seen"] = dict(sorted(stats["answers"].items()))
@@ -879,6 +912,15 @@ def self_test(ctx, traces, batches):
     acc_e, rej_e, _ = validate(ctx, traces[po], "AdminTrace_engine.cfg", "self-eng", max_rounds=2)
     results["documented reading alone rejects recorded policy-mode histories"] = bool(rej_d)
     results["engine's reading alone accepts them"] = not rej_e
+    # (g) the binding of AdminI: a model of other code (no validation before a load) must fail to explain the recordings,
+    #     and so must the right model on a recording with one answer changed
+    _, rej_w, _ = validate(ctx, traces[fl], "AdminITrace_flows_wrong.cfg", "self-iw", max_rounds=1, module="AdminITrace", deque=True)
+    results["model of other code does not explain the recordings"] = bool(rej_w)
+    h, k = pick(lambda e: e["ev"] == "call" and e.get("ep") == "load_flows" and e["code"] == 200)
+    bad = [json.loads(json.dumps(e)) for e in h]
+    bad[k]["code"], bad[k]["codes"] = 400, [400]
+    _, rej_i, _ = validate(ctx, [cfg] + bad, "AdminITrace_flows.cfg", "self-ic", max_rounds=1, module="AdminITrace", deque=True)
+    results["AdminI does not explain a changed answer"] = bool(rej_i)
     ctx.notes.append("self-test: " + json.dumps(results))
     if not all(results.values()):
         raise Broken("binding self-test failed: %s" % json.dumps(results))
